@@ -63,7 +63,7 @@ EDITS = {
         ("mo01", "crates/lib/mimium-lang/src/compiler/mirgen.rs", "        self.program.functions.push(specialized_fn);\n        if let Some(default_args)", "        specialized_fn.state_skeleton = self.program.functions[0].state_skeleton.clone();\n        self.program.functions.push(specialized_fn);\n        if let Some(default_args)", "verus", "mono_layout"),
         ("mo02", "crates/lib/mimium-lang/src/compiler/mirgen.rs", "        let original_fn = self.program.functions[original_fid.0 as usize].clone();\n        let new_fid", "        let original_fn = self.program.functions[(original_fid.0 as usize).saturating_sub(1)].clone();\n        let new_fid", "verus", "mono_layout"),
         ("cx01", "crates/lib/mimium-lang/src/compiler/mirgen.rs", "        self.data.push(ContextData {\n            func_i: c_idx,\n            ..Default::default()\n        });", "        self.data.push(ContextData {\n            func_i: c_idx,\n            push_sum: self.data[self.data_i].push_sum,\n            ..Default::default()\n        });", "verus", "ctx_stack"),
-        ("cx02", "crates/lib/mimium-lang/src/compiler/mirgen.rs", "        let _ = self.data.pop();\n        self.data_i -= 1;", "        let _ = self.data.pop();\n        let _ = self.data.pop();\n        self.data_i -= 1;", "verus", "ctx_stack"),
+        ("cx02", "crates/lib/mimium-lang/src/compiler/mirgen.rs", "        let _ = self.data.pop();\n        self.data_i -= 1;", "        let _ = self.data.pop();\n        self.data.truncate(1);\n        self.data_i -= 1;", "verus", "ctx_stack"),
         ("lp01", "crates/lib/mimium-lang/src/compiler/mirgen.rs", "                        let child = ctx.program.functions.get_mut(c_idx.0 as usize).unwrap();", "                        let child = ctx.program.functions.get_mut((c_idx.0 as usize).saturating_sub(1)).unwrap();", "verus", "mirgen_state"),
         ("lp02", "crates/lib/mimium-lang/src/compiler/mirgen.rs", "        self.program.functions.push(newf);\n        FunctionId(index as _)", "        self.program.functions.push(newf);\n        FunctionId(self.program.functions.len() as _)", "verus", "mirgen_state"),
         ("lp03", "crates/lib/mimium-lang/src/mir.rs", "            state_skeleton: StateTreeSkeleton::FnCall(state_boxed),", "            state_skeleton: StateTreeSkeleton::FnCall(state_boxed.into_iter().take(1).collect()),", "verus", "mirgen_state"),
